@@ -28,6 +28,7 @@ import (
 	"mime"
 	"mime/multipart"
 	"net/http"
+	"net/http/httputil"
 	"net/url"
 	"strings"
 	"sync"
@@ -765,9 +766,15 @@ func postData(req *http.Request, logBody bool) (*PostData, error) {
 		return nil, err
 	}
 
-	br, err := mv.BodyReader()
+	var br io.Reader
+	br, err = mv.BodyReader()
 	if err != nil {
 		return nil, err
+	}
+	if tec := len(req.TransferEncoding); tec > 0 && req.TransferEncoding[tec-1] == "chunked" {
+		// The snapshot keeps the chunked framing of the message; the post data is the
+		// body itself, as the origin receives it.
+		br = httputil.NewChunkedReader(br)
 	}
 
 	switch mt {
